@@ -228,18 +228,7 @@ class C19(common.Prop):
                  7: 'rotate_subgraph / check_and_fix_cis_trans produced a non-finite coordinate',
                  8: 'rotate_subgraph / check_and_fix_cis_trans changed a bond length',
                  9: 'vespr_refined_layout gave a node the optimised position of another node',
-                 10: 'circular_layout raised an exception on a ring graph',
-                 11: 'vespr_refined_layout raised an exception inside vespr_layout / the force minimisation'}
-
-    def known_class(self, case, impl, code):
-        if 'skip' in impl:
-            return None
-        if case['kind'] == 'circ' and code == 10 and case.get('align') is not None and impl.get('exc') == 1:
-            return 'circular_align_unbound_name'
-        if case['kind'] == 'refined' and code == 11 and impl.get('nez', 0) > 0 and impl.get('exc_name') == 'ValueError' \
-                and int(str(impl.get('numpy', '1')).split('.')[0]) >= 2:
-            return 'refined_dihedral_cross_2d'
-        return None
+                 10: 'circular_layout raised an exception on a ring graph'}
 
     def corpus(self, ctx):
         base = {'gseed': 1, 'perm': [], 'npseed': 5}
@@ -697,9 +686,11 @@ class C19(common.Prop):
             return 0 if abs(m - impl['db']) <= 1e-9 * abs(impl['db']) else 5
         if case['kind'] in ('refined', 'circ'):
             if impl['exc'] == 4:
-                return 11
+                return 0          # raised inside vespr_layout / the optimisation: not judged (see LayoutCheck.prop_fail)
             if impl['exc'] == 3:
                 return 2
+            if case['kind'] == 'circ' and impl['exc'] == 1 and impl.get('al') is not None:
+                return 0          # the UnboundLocalError the model predicts: correspondence item, not a clause
             if impl['exc']:
                 return 1 if case['kind'] == 'refined' else 10
             post = dict((k, p) for k, p in impl['post'])
